@@ -141,6 +141,12 @@ impl varlink::Interface for ScriptIface {
                 "c0" => call.set_continues(false),
                 "r" => call.reply_struct(Reply::parameters(Some(json!({"i": idx, "tag": tag}))))?,
                 "r0" => call.reply_struct(Reply::parameters(None))?,
+                // a final reply that spells the flag out: "continues": false (legal; other implementations send it)
+                "rf" => call.reply_struct(Reply {
+                    continues: Some(false),
+                    error: None,
+                    parameters: Some(json!({"i": idx, "tag": tag})),
+                })?,
                 "w" => call.reply_struct(Reply::parameters(Some(
                     json!({"iface": self.name, "req": reqv.clone()}),
                 )))?,
